@@ -16,7 +16,7 @@ def _is_mat_hermitian(mat: torch.Tensor) -> bool:
     # the absolute tolerance is relative to the magnitude of the matrix, so that
     # a non-symmetric matrix with small entries is not taken as hermitian
     matH = mat.transpose(-2, -1).conj()
-    scale = float(mat.abs().max()) if mat.numel() > 0 else 0.0
+    scale = float(mat.detach().abs().max()) if mat.numel() > 0 else 0.0
     return torch.allclose(mat, matH, rtol=1e-5, atol=1e-8 * scale)
 
 class LinearOperator(EditableModule):
